@@ -357,6 +357,18 @@ type solverSpec struct {
 var solvers = []solverSpec{
 	{"z3-new", func(f string, t int) []string { return []string{"z3-new", fmt.Sprintf("-T:%d", t), f} }},
 	{"z3", func(f string, t int) []string { return []string{"z3", fmt.Sprintf("-T:%d", t), f} }},
+	// e-matching only (no model-based quantifier instantiation, no auto-configuration): decides
+	// the deep instantiation chains on which the default configuration wanders; it answers
+	// unsat or unknown, never a spurious sat
+	{"z3-new-em", func(f string, t int) []string {
+		return []string{"z3-new", fmt.Sprintf("-T:%d", t), "smt.mbqi=false", "smt.auto_config=false", f}
+	}},
+	{"z3-em", func(f string, t int) []string {
+		return []string{"z3", fmt.Sprintf("-T:%d", t), "smt.mbqi=false", "smt.auto_config=false", f}
+	}},
+	{"z3-new-na", func(f string, t int) []string {
+		return []string{"z3-new", fmt.Sprintf("-T:%d", t), "smt.auto_config=false", f}
+	}},
 	{"cvc5", func(f string, t int) []string {
 		return []string{"cvc5", fmt.Sprintf("--tlimit=%d", t*1000), "--produce-models", f}
 	}},
@@ -415,10 +427,21 @@ func Solve(dir, name, query string, timeout int, all bool) SolverResult {
 		if timeout < short {
 			short = timeout
 		}
-		r := runOne(context.Background(), solvers[0], file, short)
-		res.All = append(res.All, r)
-		if r.Verdict == "unsat" || r.Verdict == "sat" {
-			res.Verdict, res.Solver, res.Seconds = r.Verdict, r.Solver, r.Seconds
+		sctx, scancel := context.WithCancel(context.Background())
+		sch := make(chan SolverRun, 3)
+		for _, sp := range []solverSpec{solvers[0], solvers[2], solvers[3]} {
+			go func(sp solverSpec) { sch <- runOne(sctx, sp, file, short) }(sp)
+		}
+		for i := 0; i < 3; i++ {
+			r := <-sch
+			res.All = append(res.All, r)
+			if (r.Verdict == "unsat" || r.Verdict == "sat") && res.Verdict == "" {
+				res.Verdict, res.Solver, res.Seconds = r.Verdict, r.Solver, r.Seconds
+				scancel()
+			}
+		}
+		scancel()
+		if res.Verdict != "" {
 			return res
 		}
 	}
